@@ -15,11 +15,12 @@ Inductive pcmd :=
 | CGet         (* get_command_result() *)
 | CEnd.        (* ParallelProcess.end() (also run by __del__ and when its node is deleted) *)
 
-Inductive perr := StillPending | NothingPending.
+Inductive perr := StillPending | NothingPending | Ended.
 
 Definition pstep (s : pp) (c : pcmd) : pp + perr :=
   match c with
   | CSend => if pending s then inr StillPending
+             else if ended s then inr Ended             (* the pipe is closed *)
              else inl {| pending := true; ended := ended s; alive := alive s |}
   | CGet => if pending s then inl {| pending := false; ended := ended s; alive := alive s |}
             else inr NothingPending
